@@ -409,11 +409,11 @@ class Spec(object):
                 return [report.viol("crash:" + report.exc_site(exc), "%s(%r) raised %r" % (meth, e, exc), None)]
             st.canon = None
             if raised is None:
+                st.own[k].append(e)  # the reference follows what the builder did, so that later findings are not echoes
                 if why and not self_colliding(e):
                     return [report.viol("I1:%s-accepted-despite-conflict:%s" % (meth, why),
                                         "%s(%r) was accepted although the reference finds a conflict (%s) with %r" % (
                                             meth, e, why, self.levels(st)), None, "rejected: " + why, "accepted")]
-                st.own[k].append(e)
             else:
                 self.n_rejected += 1
                 if type(raised).__name__ != excname:
@@ -452,20 +452,20 @@ class Spec(object):
                 return [report.viol("crash:" + report.exc_site(exc), "%s%r raised %r" % (meth, elems, exc), None)]
             st.canon = None
             if raised is None:
+                st.own[k] = list(elems)
                 if why and not undetermined:
                     return [report.viol("I1:%s-accepted-despite-conflict:%s" % (meth, why),
                                         "%s%r accepted although the reference finds a conflict (%s)" % (meth, elems, why),
                                         None, "rejected: " + why, "accepted")]
-                st.own[k] = list(elems)
             else:
+                # not atomic by decision: the reference follows whatever the builder lists now (old or new elements only)
+                v = self.resync(st, k, old + list(elems))
                 if type(raised).__name__ != excname:
                     return [report.viol("I1:%s-wrong-exception" % meth, "%s%r raised %r" % (meth, elems, raised), None,
                                         excname, type(raised).__name__)]
                 if not why and not undetermined:
                     return [report.viol("I1:%s-rejected-without-conflict" % meth,
                                         "%s%r raised %r but no element conflicts" % (meth, elems, raised), None, "accepted", repr(raised))]
-                # not atomic by decision: the reference follows whatever the builder lists now (old or new elements only)
-                v = self.resync(st, k, old + list(elems))
                 if v:
                     return [v]
         else:
